@@ -49,8 +49,22 @@ _BOUNDARIES = ["XX", "XX", "----WebKitFormBoundary7MA4YWxkTrZu0gW", "-----------
                "a.b_c-d", "0"]
 _BOUNDARIES_Q = ["a+b", "a'b", "----=_Part+1'2"]   # bchars that are also token chars (valid unquoted parameter)
 _BASE_PATHS = ["/", "/a/b", "/a;p", "/a?old=1", "/a/b?x=1&x=2#frag", "/a#frag", "/a%2Fb/c%20d;p=1?q", "//a", "/a/?"]
-_CTYPES = [None, "text/plain", "application/x-www-form-urlencoded", "application/x-www-form-urlencoded; charset=utf-8",
-           "application/json"]
+_FORM = "application/x-www-form-urlencoded"
+_MP_CT_EXTRA = ["", "", "", "charset=utf-8; ", "charset=utf-16; ", "charset=latin-1; ", "foo=bar; "]   # parameters before boundary=
+# pre-existing Content-Type of the request whose form/multipart view is assigned: other types, and the form type itself with
+# charset and other parameters (any spelling a client may send)
+_FORM_PARAMS = ["", "; charset=utf-8", "; charset=UTF-8", "; charset=utf-16", "; charset=utf-16le", "; charset=utf-16be", "; charset=utf-32",
+                "; charset=utf-7", "; charset=latin-1", "; charset=iso-8859-1", "; charset=shift_jis", "; charset=gb2312", "; charset=ascii",
+                "; charset=x-unknown", ";charset=utf-16le", "; Charset=utf-16", '; charset="utf-16le"', "; foo=bar", "; foo=bar; charset=utf-16le",
+                "; charset=utf-16be; q=1", "; boundary=XX"]
+_CTYPES = [None, "text/plain", "text/plain; charset=utf-16", "application/json", "multipart/form-data; boundary=XX", _FORM,
+           "Application/X-WWW-Form-Urlencoded"] + [_FORM + x for x in _FORM_PARAMS]
+# write-back: the existing body is really encoded in the declared charset (BOM-less ones: a BOM is C32's business)
+_WB_FORM_CTYPES = [(_FORM, "ascii"), (_FORM + "; charset=utf-8", "utf-8"), ("Application/X-WWW-Form-Urlencoded", "ascii"),
+                   (_FORM + "; charset=utf-16le", "utf-16le"), (_FORM + "; charset=utf-16be", "utf-16be"),
+                   (_FORM + "; charset=latin-1", "latin-1"), (_FORM + "; charset=shift_jis", "shift_jis"),
+                   (_FORM + "; foo=bar; charset=utf-16le", "utf-16le"), (_FORM + "; charset=utf-32be", "utf-32be"),
+                   (_FORM + "; charset=ascii; q=1", "ascii")]
 _OLD_BODIES = [None, b"", b"a=1&b=2", b"a&b", b"x", b"\xff\xfe", b"a=1&b"]
 _CODINGS = [None, None, "gzip", "deflate", "br", "zstd"]   # Content-Encoding of the message the view lives on
 _WB_ATTRS = [["Path", "/"], ["path", "/a/b"], ["Expires", _DATES[0]], ["expires", _DATES[1]], ["Domain", "example.com"],
@@ -147,13 +161,12 @@ def build(rnd):
             boundary = None if r < 0.34 else pick(rnd, _BOUNDARIES) if r < 0.8 else pick(rnd, _BOUNDARIES_Q)
             return [view, "assign", boundary, pick(rnd, _OLD_BODIES),
                     [[_g_mp_name(rnd), pick(rnd, _MP_VALS) if rnd.random() < 0.5 else rbytes(rnd, 0, 12)] for _ in range(small(rnd, 4))],
-                    pick(rnd, _CODINGS)]
+                    pick(rnd, _CODINGS), pick(rnd, _MP_CT_EXTRA)]
         return [view, "assign", pick(rnd, _BASE_PATHS), [c for c in (_g_text(rnd, 1) for _ in range(small(rnd, 4))) if c]]
     if view == "query":
         return [view, "writeback", pick(rnd, ["/p", "/a/b;x", "/"]), _g_qpairs(rnd), rnd.randint(0, 7), pick(rnd, ["", "#f"])]
     if view == "form":
-        return [view, "writeback", pick(rnd, ["application/x-www-form-urlencoded", "application/x-www-form-urlencoded; charset=utf-8",
-                                              "Application/X-WWW-Form-Urlencoded"]), _g_qpairs(rnd), rnd.randint(0, 7), pick(rnd, _CODINGS)]
+        return [view, "writeback", pick(rnd, _WB_FORM_CTYPES)[0], _g_qpairs(rnd), rnd.randint(0, 7), pick(rnd, _CODINGS)]
     if view == "cookies":
         return [view, "writeback", [[_g_simple_cookie(rnd) for _ in range(rnd.randint(1, 3))] for _ in range(rnd.randint(1, 3))],
                 rnd.randint(0, 3)]
@@ -456,8 +469,14 @@ def _form_assign(case, ctx):
         r.urlencoded_form = pairs
     want = [(k.encode("utf-8", "surrogateescape"), v.encode("utf-8", "surrogateescape")) for k, v in pairs]
     body = r.get_content(strict=False)
+    try:   # what a recipient reads: the body text under the charset the Content-Type declares now
+        body = body.decode(_ct_charset(r.headers.get("content-type", "")) or "ascii").encode("utf-8", "surrogateescape")
+    except (LookupError, UnicodeError):
+        pass
     if ref_qs_decode(body) != want:
         ctx.fail("form-wire-meaning", "assigned %r, body %r decodes (reference) to %r" % (pairs[:5], body[:80], ref_qs_decode(body)[:5]))
+    if ctype and "charset" in ctype.lower():
+        cl.add("ctype-charset")
     if "x-www-form-urlencoded" not in r.headers.get("content-type", "").lower():
         ctx.fail("form-content-type", "content-type %r after assigning the form" % r.headers.get("content-type"))
     return cl | ({"pairs"} if pairs else set())
@@ -465,7 +484,9 @@ def _form_assign(case, ctx):
 
 def _form_writeback(case, ctx):
     _, _, ctype, pairs, style, coding = case
-    body = ref_qs_encode(pairs, style).encode("ascii")
+    charset = dict(_WB_FORM_CTYPES).get(ctype, "ascii")
+    qs = ref_qs_encode(pairs, style)                      # pure ASCII text
+    body = qs.encode(charset)                             # ... as the client would put it on the wire under `charset`
     r = _req("/", [(b"Content-Type", ctype.encode())], b"")
     if coding:
         r.headers["content-encoding"] = coding
@@ -474,10 +495,26 @@ def _form_writeback(case, ctx):
     r.urlencoded_form = before
     after = _items(r.urlencoded_form)
     if after != before:
-        ctx.fail("writeback-view-changed:form", "body %r: view %r -> %r" % (body, before[:5], after[:5]))
-    if ref_qs_decode(r.get_content(strict=False)) != ref_qs_decode(body):
-        ctx.fail("writeback-meaning-changed:form", "body %r became %r" % (body, r.get_content(strict=False)))
-    return _classes([x for pp in pairs for x in pp]) | {"style%d" % style}
+        ctx.fail("writeback-view-changed:form", "Content-Type %r body %r: view %r -> %r (Content-Type now %r, body %r)"
+                 % (ctype, body[:60], before[:5], after[:5], r.headers.get("content-type"), r.get_content(strict=False)[:60]))
+    # meaning for a recipient: decode the body with the charset the Content-Type declares *now* (own reader), then parse
+    now = _ct_charset(r.headers.get("content-type", "")) or "ascii"
+    try:
+        text_now = r.get_content(strict=False).decode(now)
+    except (LookupError, UnicodeError):
+        text_now = None
+    if text_now is None or ref_qs_decode(text_now) != ref_qs_decode(qs):
+        ctx.fail("writeback-meaning-changed:form", "Content-Type %r body %r became Content-Type %r body %r"
+                 % (ctype, body[:60], r.headers.get("content-type"), r.get_content(strict=False)[:60]))
+    return _classes([x for pp in pairs for x in pp]) | {"style%d" % style, "charset:" + charset}
+
+
+def _ct_charset(ct):
+    for p in ct.split(";")[1:]:
+        k, eq, v = p.partition("=")
+        if eq and k.strip(" \t").lower() == "charset":
+            return v.strip(' \t"')
+    return None
 
 
 # ---- request cookies
@@ -584,10 +621,11 @@ def _setcookies_writeback(case, ctx):
 def _multipart_assign(case, ctx):
     boundary, old, pairs = case[2], case[3], case[4]
     coding = case[5] if len(case) > 5 else None
+    extra = case[6] if len(case) > 6 else ""
     pairs = [tuple(p) for p in pairs]
     fields = []
     if boundary is not None:
-        fields.append((b"Content-Type", b"multipart/form-data; boundary=" + boundary.encode()))
+        fields.append((b"Content-Type", b"multipart/form-data; " + extra.encode() + b"boundary=" + boundary.encode()))
     r = _with_coding(_req("/", fields, b""), coding, old)
     if boundary is not None:
         # not representable: a value that contains a full delimiter line
